@@ -249,11 +249,16 @@ def gen_c06(ctx, n):
     scs, metas = [], []
     for _ in range(n):
         weighted = rng.random() < 0.25
-        kb = gen_prop.gen_kb(rng, weighted=weighted)
-        roots = gen_prop.roots_of(rng, kb)
-        kb, roots = gen_prop.restrict(kb, roots)
-        mode = rng.choice(["consistent", "consistent", "free"])
-        data, hidden = gen_prop.gen_data(rng, kb, mode)
+        if rng.random() < 0.3:
+            # rule chains: the fixpoint is several passes away and the root order decides which pass finds what
+            kb, roots, data = gen_prop.gen_chain(rng)
+            weighted, mode, hidden = False, "chain", None
+        else:
+            kb = gen_prop.gen_kb(rng, weighted=weighted)
+            roots = gen_prop.roots_of(rng, kb)
+            kb, roots = gen_prop.restrict(kb, roots)
+            mode = rng.choice(["consistent", "consistent", "free"])
+            data, hidden = gen_prop.gen_data(rng, kb, mode)
         ops = [[5, -1, 60]] + all_node_ops(kb) + [[5, -1, 60]]
         scs.append([3, kb, roots, data, ops, hidden or []])
         metas.append({"mode": mode, "hidden": hidden, "nobj": len(kb), "kinds": sorted(set(o[0] for o in kb)), "weighted": weighted})
@@ -302,7 +307,7 @@ def check_C06(ctx):
     ctx.cov["distribution"] = dist(meta)
     ctx.assumptions.append("C06_fixpoint_partial needs the last step to report exactly zero (grid-closed KBs); infer() stops at <= 1e-7 (D9, DESIGN.md section 10)")
     ctx.assumptions.append("first-order knowledge bases: the fixpoint/termination theorems are propositional; the first-order part (after the row-creation fix) is checked on the implementation against the model (fol_c06 monitor); quantifiers: see C11/C12")
-    return ctx.finish("proof", pr, st, rule="K4: random propositional KBs (75% unit-weight, 25% weighted), consistent or free data; ops = infer(max_steps=60 guard), then upward and downward of EVERY non-leaf object, then infer again; "
+    return ctx.finish("proof", pr, st, rule="K4: random propositional KBs (75% unit-weight, 25% weighted), consistent or free data, 30% chains of 2-4 asserted rules (Implies either way, Iff, Or(Not a, b)) with a classical fact at one end and shuffled roots; ops = infer(max_steps=60 guard), then upward and downward of EVERY non-leaf object, then infer again; "
                       "monitor: convergence within the guard, every later node call is a no-op, second infer = (1 step, 0); non-trivial = first infer moved a bound")
 
 
